@@ -37,6 +37,9 @@ CHECKS = {
  "C18": dict(cat="exploration", tech="runtime monitor over real `llbuild ninja build` runs on generated manifests of one deterministic helper command: contents predicted in Python, clean builds by the installed ninja 1.11.1 as second oracle, the commands' own run log (start/end records), exit status; ASan/UBSan, TSan -j4 subset",
              text="Generated Ninja manifests (explicit/implicit/order-only inputs, multiple outputs, phony aliases, depfile + deps=gcc, restat, generator, pools, default) x histories of 4..12 steps {forward-mtime source edits, header edits, output deletion, manifest edits, build default/named targets, failure rounds; -k 1 and -k 0}, -j1/-j4, --db/--no-db, new process per build: outputs equal predicted clean-build bytes, immediate rebuild runs nothing, order-only changes do not re-run and producers finish before consumers start, changed command lines re-run, failing commands block dependents, exit non-zero, are retried and converge after repair.",
              note="Edits move mtimes forward (update-if-newer is a documented Ninja-compatible comparison); not judged: immediate rebuilds with --no-db, generator statements whose command line changed, restat pruning; two known findings (order-only producer failure with -k 0; dependency newly declared without a command-line change) are listed in known-findings.json.", ref="4/C18"),
+ "C19": dict(cat="exploration", tech="coverage-guided fuzzing (libFuzzer + ASan/UBSan, NDEBUG) of the three hand-written parsers on exact-size unterminated buffers with online lexer/loader monitors; YAML shape generator through `llbuild buildsystem parse`",
+             text="Four libFuzzer targets (Ninja lexer in all modes with a token-tiling monitor, parser+manifest loader over an in-memory file table incl. recursive include/subninja, Makefile deps parser, dependency-info parser) bounded by -runs from a generated seed corpus; every artifact is re-run alone for a stable key; timeouts are violations after a solitary re-run; thousands of well-formed YAML documents with wrong node kinds, missing/duplicate/misordered sections and unknown attributes are loaded by the asan and the NDEBUG binaries.",
+             note="Red zones miss far out-of-bounds reads; assertion-only failures on the assertions-on binary that the NDEBUG+ASan binary handles are recorded, not judged; manifest-loader objects leak by design, so that target's processes are recycled.", ref="4/C19"),
  "C20": dict(cat="exploration", tech="differential runtime monitor: same generated histories through core.h and through the C++ engine interface, traces compared event by event",
              text="Each history runs once through BuildEngine/Rule/Task and once only through llb_buildengine_*/llb_task_*; per-build traces on the shared vocabulary must be identical, both runs are monitored (M-proto/M-value/M-justify) and the DB written via the C interface is read back independently.",
              note="Single-use requests, prior values, run reasons and rule signatures do not exist in the C interface; db.h and Swift bindings not covered.", ref="4/C20"),
